@@ -38,6 +38,7 @@ inductive Ev
   | retSucc (id : Int)           -- returnSuccesses: success event + inFlight.Done
   | seq (id : Int)               -- partition producer stamped a sequence number
   | stamp (id : Int) (epoch seq : Int)   -- partition producer stamped (epoch, sequence) on the message (carried by `seq` events)
+  | stampAt (p epoch seq : Int)          -- … on a message of partition p: the counter value getAndIncrementSequenceNumber returned
   | setStamp (epoch firstSeq : Int)      -- a produce set about to go on the wire: the stamp its batch carries
   | sent (id : Int) (idx : Int)          -- … and the idx-th message of that batch
   | sentEnd                              -- end of the produce set
@@ -65,6 +66,7 @@ structure St where
   lastSent  : List (Int × Int × Int) := []   -- id ↦ (epoch, sequence) under which it last went on the wire
   viaBatch  : List Int := []                 -- ids whose latest re-entry was a whole-batch resend (retryBatch)
   curStamp  : Option (Int × Int) := none     -- stamp of the produce set currently being reported
+  stampLog  : List (Int × Int × Int) := []   -- (partition, epoch, sequence) of every stamp given, newest first
   shutdownStarted : Bool := false
   shutdownSeen    : Bool := false
   waited    : Bool := false
@@ -72,6 +74,11 @@ structure St where
   deriving Repr
 
 def init (cfg : Cfg) : St := { cfg := cfg }
+
+/-- number of stamps already given in (partition, epoch): the value the sequence counter of that partition holds in
+    that epoch (bumpEpoch increments the epoch and resets every counter in one critical section) -/
+def stampCount (l : List (Int × Int × Int)) (p e : Int) : Nat :=
+  (l.filter (fun x => x.1 = p ∧ x.2.1 = e)).length
 
 def retriesOf (s : St) (id : Int) : Nat := s.retryLog.count id
 
@@ -147,6 +154,10 @@ def step (s : St) : Ev → Except String St
     else if s.seqLog.count id ≠ 0 then .error "seq: sequence stamped twice"
     else .ok { s with seqLog := id :: s.seqLog }
   | .stamp id e q => .ok { s with msgStamp := insert3 s.msgStamp id (e, q) }
+  | .stampAt p e q =>
+    if q ≠ (stampCount s.stampLog p e : Int) then
+      .error "stampAt: the sequence given is not the number of stamps already given to this partition in this epoch"
+    else .ok { s with stampLog := (p, e, q) :: s.stampLog }
   | .setStamp e f => .ok { s with curStamp := some (e, f) }
   | .sentEnd => .ok { s with curStamp := none }
   | .reentry id b =>
